@@ -124,6 +124,12 @@ theorem list_terminates (srv : Server α) (N : Int) (h : Echoes srv N) (path : S
     ((listAll srv fuel path name flag ps).requests.length : Int) ≤ max 1 N :=
   listAll_terminates srv N h path name flag ps fuel hf
 
+/-- `list_terminates` is not vacuous: the well-behaved server echoes the page and never reports
+    more pages than it holds items, whatever filter and page size each request carries -/
+theorem good_server_echoes (sel : Option String → Option String → α → Bool) (xs : List α) :
+    Echoes (goodServer sel xs) xs.length :=
+  goodServer_echoes sel xs
+
 /-- the statement order of the source (which key is read with `[...]`, where the loop breaks) is
     the one the hand-written loop of the model follows -/
 theorem list_skeleton :
@@ -172,6 +178,22 @@ theorem wrapper_outcome (w : Wrapper) (hw : w ∈ Gen.Paging.wrappers)
   simp only [h1, h2, h3, if_true]
   exact list_outcome sel xs _ name flag p fuel hp hflag hfuel
 
+/-- every listing operation with `page_size=None` (the default of `channel.list`): one
+    unpaginated request on the operation's path, the whole selected array comes back -/
+theorem wrapper_unpaginated (w : Wrapper) (hw : w ∈ Gen.Paging.wrappers)
+    (sel : Option String → Option String → α → Bool) (xs : List α) (vhost : String) (showAll : Bool)
+    (name : Option String) (flag : PyFlag) (fuel : Nat) (hflag : flagRaises flag = false) :
+    wrapperList w (goodServer sel xs) fuel vhost showAll name flag none =
+      ⟨[⟨(w.call showAll).path vhost, expBase name (regexParam flag)⟩],
+       .ok (held sel xs name (regexParam flag))⟩ := by
+  have hpass : ∀ w ∈ Gen.Paging.wrappers, ∀ b : Bool,
+      (w.call b).passName = true ∧ (w.call b).passRegex = true := by
+    decide
+  obtain ⟨h1, h2⟩ := hpass w hw showAll
+  unfold wrapperList
+  simp only [h1, h2, if_true, ite_self]
+  exact list_unpaginated sel xs _ name flag fuel hflag
+
 /-- the paths: `queues`, `exchanges`, `connections`, `channels`; per vhost `queues/<quoted vhost>`
     and `exchanges/<quoted vhost>` -/
 theorem wrapper_paths (vhost : String) :
@@ -180,6 +202,16 @@ theorem wrapper_paths (vhost : String) :
        ("exchange.list", "exchanges", "exchanges/" ++ quote vhost),
        ("queue.list", "queues", "queues/" ++ quote vhost)] := by
   simp [Gen.Paging.wrappers, Wrapper.call, ListCall.path]
+
+/-- the quoted vhost is a single path segment: whatever the vhost name, `quote` emits no `/`, `?`,
+    `#`, `&`, `=`, `+` or space, so `queues/<vhost>` cannot address another collection or smuggle
+    a query parameter -/
+theorem vhost_segment_safe (vhost : String) :
+    ∀ c ∈ (quote vhost).toList, c ≠ '/' ∧ c ≠ '?' ∧ c ≠ '#' ∧ c ≠ '&' ∧ c ≠ '=' ∧ c ≠ '+' ∧ c ≠ ' ' := by
+  intro c hc
+  rcases quote_chars vhost c hc with h | h
+  · refine ⟨?_, ?_, ?_, ?_, ?_, ?_, ?_⟩ <;> (intro hx; subst hx; revert h; decide)
+  · subst h; decide
 
 /-! ## Non-vacuity -/
 
@@ -212,5 +244,8 @@ example : (Gen.Paging.wrappers.filter (·.op == "queue.list")).map (fun w =>
     ((wrapperList w (goodServer (fun _ _ _ => true) [1, 2, 3]) 5 "/" false none (.bool false) (some 2)).requests.map (·.path),
      (wrapperList w (goodServer (fun _ _ _ => true) [1, 2, 3]) 5 "/" true none (.bool false) (some 2)).result)) =
     [(["queues/%2F", "queues/%2F"], .ok [1, 2, 3])] := by decide +kernel
+
+/-- quoting: the default vhost and a hostile one -/
+example : quote "/" = "%2F" ∧ quote "a/b?c#d é" = "a%2Fb%3Fc%23d%20%C3%A9" := by decide +kernel
 
 end Amqp.C20
